@@ -46,6 +46,8 @@ def sources(tier, seed, ctx):
             reps = ['TruthTable', 'PyFunction', 'Circuit'] if tier != 'quick' or (n, m) != (2, 2) or k % 2 == 0 else [['TruthTable', 'PyFunction', 'Circuit'][k % 3]]
             for rep in reps:
                 srcs.append({'k': 'fn', 'n': n, 'm': m, 'tt': f, 'rep': rep, 'positional': (k % 2 == 0)})
+                if rep == 'Circuit' and k % 3 == 0:
+                    srcs.append({'k': 'fn', 'n': n, 'm': m, 'tt': f, 'rep': rep, 'inlabels': True})
             if any(sorted(t) == [r for r in range(2 ** n) if (r >> (n - 1 - j)) & 1] for t in f for j in range(n)):
                 srcs.append({'k': 'fn', 'n': n, 'm': m, 'tt': f, 'rep': 'Circuit', 'direct': True})
     # the circuit representation with one path longer than the interpreter's recursion limit (every two-input function,
@@ -99,11 +101,15 @@ def _table(n, m, tt):
     return [[r in set(tt[k]) for r in range(2 ** n)] for k in range(m)]
 
 
-def _dnf_circuit(n, m, tt, direct=False, deep=0):
+INLABELS = {1: ['x10'], 2: ['x10', 'x2'], 3: ['lhs', 'rhs', 'cin'], 4: ['x10', 'x9', 'X1', 'x01']}
+
+
+def _dnf_circuit(n, m, tt, direct=False, deep=0, inlabels=False):
     from cirbo.core.circuit import Circuit, gate as G
 
     c = Circuit()
-    ins = [f'x{j}' for j in range(n)]
+    # inlabels: input names whose text order is not their index order
+    ins = list(INLABELS[n]) if inlabels and n in INLABELS else [f'x{j}' for j in range(n)]
     c.add_inputs(ins)
     neg = {}
     if deep and n:
@@ -182,7 +188,7 @@ def _make(src):
             return TruthTable([[int(x) for x in row] for row in table])
         return TruthTable(table)
     if src['rep'] == 'Circuit':
-        return _dnf_circuit(n, m, tt, direct=bool(src.get('direct')), deep=src.get('deep', 0))
+        return _dnf_circuit(n, m, tt, direct=bool(src.get('direct')), deep=src.get('deep', 0), inlabels=bool(src.get('inlabels')))
     cols = [[table[k][r] for k in range(m)] for r in range(2 ** n)]
 
     def lookup(args):
